@@ -170,7 +170,7 @@ static void run_case(int k)
     /* optional full rewrite from the start with different content (>= old length is required by the coders) */
     if (hk_chance(35)) {
         int n2 = gen_data(data2, (int)maxlen);
-        if (n2 >= n) {
+        if (n2 >= n && n2 > 0) { /* a zero-length Hwrite is refused by design (same rule as for the first write) */
             int32 a2 = Hstartwrite(fid, tag, ref, n2);
             if (a2 == FAIL) hk_fail("comp-startwrite", "%s rewrite", cname);
             else {
